@@ -182,6 +182,10 @@ struct Tester
             }
             return k;
         };
+        if (err.find("SIM-DEADLOCK") != std::string::npos)
+            return "deadlock";
+        if (err.find("SIM-STEPBUDGET") != std::string::npos)
+            return "step-budget";
         auto pos = err.find("runtime error: ");
         if (pos != std::string::npos)
             return "ubsan:" + words(err, pos + 15, 4);
@@ -383,7 +387,7 @@ static Plan minimise(Engine& e, const Config& cfg, Plan plan, Tester& t, uint64_
     // 3. knobs towards 0
     for (size_t k = 0; k < plan.knobs.size() && !over(); k++)
     {
-        if (plan.knobs[k].second <= 0)
+        if (plan.knobs[k].second <= 0 || plan.knobs[k].first == "min")
             continue;
         Plan cand = plan;
         cand.knobs[k].second = 0;
